@@ -55,13 +55,25 @@ class QCircuitEnhanced(QCircuit):
 
         self[name] = index
 
+    @staticmethod
+    def _is_self_inverse(gate) -> bool:
+        """Return True if applying the gate twice is the identity"""
+        while isinstance(gate, gates.QControlledGate):
+            gate = gate.gate
+        return isinstance(
+            gate, (gates.I, gates.X, gates.Y, gates.Z, gates.H, gates.Swap)
+        )
+
     def remove_identities(self):
         """Remove identities from the circuit"""
         result: List[gates.AppliedGate] = []
         i = 0
         len_g = len(self.gates)  # type: ignore
         while i < len_g:
-            if i < (len_g - 1) and self.gates[i] == self.gates[i + 1]:  # type: ignore
+            if not self._is_self_inverse(self.gates[i][0]):  # type: ignore
+                result.append(self.gates[i])  # type: ignore
+                i += 1
+            elif i < (len_g - 1) and self.gates[i] == self.gates[i + 1]:  # type: ignore
                 if len(result) > 0 and isinstance(result[-1][0], gates.Barrier):
                     result.pop()
                 i += 2
